@@ -14,6 +14,7 @@ import Pithos.Util.Proto
 import Pithos.Model.AuditLogCode
 import Pithos.Model.Sha512
 import Pithos.Gen.AuditOverrides
+import Pithos.Gen.AuditLog
 import Std.Data.HashMap
 import Std.Data.HashSet
 open Pithos Pithos.Proto Pithos.AuditLog Pithos.AuditLog.Code
@@ -138,10 +139,19 @@ def judgeCase (_k : Nat) (lines : List String) : Verdict := Id.run do
   if firstFile.2.1 != mv then
     s := s.addDiv s!"validator:impl={firstFile.2.1},model={mv}"
   -- ---------------------------------------------------------------- judge: the files verify
-  let anyBadUtf8 := s.ents.any fun r => r.any fun (_, b) => !validUtf8 b
+  -- the known JSON finding: the rejected entry holds U+FFFD (EF BF BD) in a string field — what
+  -- encoding/json wrote for bytes that were not valid UTF-8
+  let strFields := ((Gen.AuditLog.jsonEntryW ++ Gen.AuditLog.jsonLogW).filter fun x => x.2.2.2 == "str").map (·.1)
+  let rec hasFFFD : List UInt8 → Bool
+    | 0xEF :: 0xBF :: 0xBD :: _ => true
+    | _ :: t => hasFFFD t
+    | [] => false
   for (ser, v, cnt) in s.files do
     if v != "ok" then
-      let sg := if ser == "json" && anyBadUtf8 then "C26.log-unverifiable.json.invalid-utf8" else s!"C26.log-unverifiable.{ser}"
+      let replaced := match v.splitOn ":" with
+        | [i, "hash"] => ser == "json" && ser == firstFile.1 && strFields.any fun f => hasFFFD (get (s.ents[i.toNat!]?.getD []) f)
+        | _ => false
+      let sg := if replaced then "C26.log-unverifiable.json.invalid-utf8" else s!"C26.log-unverifiable.{ser}"
       s := s.addVio sg s!"{ser}-file:{v}:entries={cnt}"
   if s.same != "ok" then s := s.addVio "C26.sinks-differ" s.same
   if s.restart != "" && s.restart != "ok" then
@@ -210,11 +220,12 @@ def judgeCase (_k : Nat) (lines : List String) : Verdict := Id.run do
   return {
     diverge := s.div, violations := s.vio,
     nontrivial := (g ≥ 4 && groundings ≥ 2) || s.calls.size ≥ 3,
-    fingerprint := fpLines [lookupS s.cfg "sinks", toString g, toString s.calls.size, toString n, toString overlapped, lookupS s.cfg "restart"],
+    fingerprint := fpLines [lookupS s.cfg "sinks", toString g, toString s.calls.size, toString n, toString overlapped, lookupS s.cfg "restart", lookupS s.cfg "zone"],
     stats := [("calls", s.calls.size), ("calls_failed", failed), ("entries", n), ("log_entries", logs), ("groundings", groundings),
       ("calls_interleaved_with_others", overlapped), ("restarts", if s.restart == "ok" then 1 else 0),
-      ("files_verified", s.files.length)],
-    samples := [s!"sinks={lookupS s.cfg "sinks"} goroutines={g} calls={s.calls.size} entries={n} groundings={groundings} interleaved={overlapped} restart={lookupS s.cfg "restart"}"]
+      ("files_verified", s.files.length),
+      ("cases_process_in_non_utc_zone", if lookupS s.cfg "zone" != "0" && lookupS s.cfg "zone" != "" then 1 else 0)],
+    samples := [s!"sinks={lookupS s.cfg "sinks"} goroutines={g} calls={s.calls.size} entries={n} groundings={groundings} interleaved={overlapped} restart={lookupS s.cfg "restart"} zone={lookupS s.cfg "zone"}s"]
   }
 
 def main : IO Unit := runDriver judgeCase
